@@ -38,33 +38,3 @@ def c10_build(valid, unit, v, r, new_id):
 def c10_attempts(valid, unit, sends, clean):
     return sum(1 for (_, _, data, _) in sends if data == "fe01")
 
-
-# ---- C07: probe of the recorded (unrepaired) finding — a reply that is in the Mindustry format (`writeString` = one
-# length byte, then that many bytes of UTF-8, which may contain U+0000) but that the shared length-prefixed decoder
-# cuts at the NUL, leaving the cursor inside the string: every following field is read from the wrong place and a
-# response made of garbage is returned without any error.
-
-FINDING_PROBES = [
-    ("mindustry-nul-in-string",
-     "a Mindustry string containing U+0000 (host \"A\\0B\") is cut at the NUL and the cursor is left inside it: the map, the three "
-     "counters and everything after them are read from the wrong offsets and returned without an error",
-     "fp_md_nul mindustry 6567 0 03410042036d6170000000010000000200000092086f6666696369616c000000000a0164",
-     "OK M{x410042;x6d6170;1;2;146;x6f6666696369616c;survival;10;x64;-}"),
-]
-
-
-def finding_probes(rep):
-    """run the probes: correspondence as for every case; oracle: the response the format entitles the user to"""
-    import vlib
-    from props import netprops
-    by_id = {line.split(" ", 1)[0]: (sig, desc, want) for (sig, desc, line, want) in FINDING_PROBES}
-
-    def oracle(case, impl, model, panic):
-        out = netprops.crash_oracle(case, impl, model, panic)
-        sig, desc, want = by_id[case.split(" ", 1)[0]]
-        if vlib.result_of(impl) != want:
-            out.append((sig, desc + "; got " + vlib.result_of(impl)[:200]))
-        return out
-
-    rep.count("finding-probes", len(FINDING_PROBES))
-    vlib.correspond(rep, [line for (_, _, line, _) in FINDING_PROBES], oracle=oracle, trivial=netprops.trivial, tag="c07p")
